@@ -288,7 +288,7 @@ func genContentREST(c *Chooser) *Plan {
 		}
 	}
 	bp.Resp.FlushEvery = Pick(c, 0, 1, 2)
-	cp.RW = Pick(c, "", "", "flusherr", "unwrap")
+	cp.RW = Pick(c, "", "", "flusherr", "unwrap", "buffering")
 	if n := len(cp.RawBody); n > 2048 {
 		k := n/512 + 1
 		for _, sizes := range [][]int{cp.Deliveries, bp.ReadSizes} {
